@@ -1,5 +1,5 @@
 #!/bin/bash
-# usage: tools/cross.sh [jobs] — development aid: applies every seeded change ON TOP OF every behaviour-preserving
+# usage: tools/cross.sh [jobs] [benign-dir ...as one quoted glob] — development aid: applies every seeded change ON TOP OF every behaviour-preserving
 # refactoring (where both patches apply and the result builds) and checks that the seed's property check still
 # fires. Guards against helper transparency turning a rule vacuous on refactored code. Scratch copies live in /tmp
 # and are removed.
@@ -24,6 +24,6 @@ one() {
   rm -rf "$d"
 }
 export -f one
-for b in benign/*/; do for s in seeded/*/; do echo "${b%/} ${s%/}"; done; done | xargs -P "$jobs" -n 2 bash -c 'one "$0" "$1" '"$work" | sort > /tmp/cross-result.txt
+for b in ${2:-benign/*/}; do for s in seeded/*/; do echo "${b%/} ${s%/}"; done; done | xargs -P "$jobs" -n 2 bash -c 'one "$0" "$1" '"$work" | sort > /tmp/cross-result.txt
 awk '{print $3}' /tmp/cross-result.txt | sort | uniq -c
 grep MISSED /tmp/cross-result.txt
